@@ -153,6 +153,12 @@ theorem double_object_correct_partial (hH : NoOrder2 H) {P : PJ} {g} (hP : PJRep
 theorem neg_correct {P : PJ} {g} (hP : PJRep p a b H P g) : PJRep p a b H (pjNeg P) (-g) :=
   pjNeg_correct hP
 
+/-- `-P` on ANY point value, the identity included: `-INFINITY` is INFINITY (fix F12), `-P` for a `PointJacobi`,
+`Point.__neg__` for a legacy point (that case is why N2T is needed: it stores `p - y`) -/
+theorem pt_neg_correct_partial (hH : NoOrder2 H) {A : Pt} {g} (hA : PtRep p a b H A g) :
+    ∃ R, ptNeg A = .ok R ∧ PtRep p a b H R (-g) :=
+  ptNeg_correct hH hA
+
 /-- FULL: `P == Q ↔ ⟦P⟧ = ⟦Q⟧` for all points.  PROVED under N2T (needed only when `other` is a legacy affine point,
 to know its y ≠ 0); `other` = INFINITY / `PointJacobi` / legacy `Point`. -/
 theorem eq_iff_partial (hH : NoOrder2 H) {P : PJ} {other : Pt} {g h}
